@@ -103,6 +103,11 @@ class CoordinationSystem:
             if checkpoint_result != CheckpointResult.PASSED:
                 raise CheckpointError(f"G1 checkpoint failed: {checkpoint_result}")
 
+            # The operation may have been killed (watchdog, manual kill, shutdown)
+            # while we were acquiring: its resources are gone, so no work
+            if self.controller.active_operations.get(operation_id) is not ctx:
+                raise ResourceError(f"Operation {operation_id} was killed before execution")
+
             # Execute work in S phase
             try:
                 result = work_fn()
